@@ -3,5 +3,8 @@ package sim
 import "time"
 
 func init() {
-	plans["C03"] = propPlan{Scenarios: []string{"tunnel"}, QuickRuns: 4000, ThoroughDur: 10 * time.Minute}
+	for _, p := range []string{"C03", "C04", "C05", "C09", "C10"} {
+		plans[p] = propPlan{Scenarios: []string{"tunnel"}, QuickRuns: 4000, ThoroughDur: 10 * time.Minute}
+	}
+	plans["C17"] = propPlan{Scenarios: []string{"tunnel"}, QuickRuns: 3000, ThoroughDur: 10 * time.Minute}
 }
